@@ -33,6 +33,9 @@ namespace sim { namespace aux {
 		std::string label() const override;
 		void reset(sink* s = nullptr);
 
+		// the sink packets are currently forwarded to, nullptr once detached
+		sink* destination() const { return m_dst; }
+
 	private:
 		sink* m_dst;
 	};
